@@ -177,6 +177,8 @@ class VEPRecord():
                     ref = str(seq.seq[alt_start])
                     if ref == allele[-1]:
                         alt_start -= 1
+                        if alt_start < tx_start_genetic:
+                            raise TranscriptionStartSiteMutationError(tx_id)
                         alt_end = alt_start + 1
                         ref = str(seq.seq[alt_start])
                         alt = ref + allele[:-1]
